@@ -241,6 +241,7 @@ class StepRule:
         self.named = {i: l['name'] for i, l in enumerate(fn.body['locals']) if l['name']}
         self.steps = set()
         self.problems = []
+        self.by_value = set()
 
     def inline_ok(self, I, ci, body):
         return False
@@ -258,10 +259,13 @@ class StepRule:
             return [(w, ('sym', 'fresh-accum'))]
         if ci.npath == 'core::str::<impl str>::as_bytes':
             return [(w, args[0])]
-        if ci.name in ('iter', 'into_iter') and args and args[0][0] == 'sym':
+        if ci.name in ('iter', 'into_iter', 'bytes') and args and args[0][0] == 'sym':
             if args[0][1].startswith(('iter(', 'zip(')):
                 return [(w, args[0])]
-            return [(w, ('sym', 'iter(%s)' % args[0][1]))]
+            nm_ = 'iter(%s)' % args[0][1]
+            if ci.name == 'bytes':
+                self.by_value.add(nm_)          # `str::bytes()` yields the bytes themselves, `iter()` references to them
+            return [(w, ('sym', nm_))]
         if ci.name == 'zip' and len(args) == 2:
             return [(w, ('sym', 'zip(%s,%s)' % (args[0][1] if args[0][0] == 'sym' else '?', args[1][1] if args[1][0] == 'sym' else '?')))]
         if ci.name == 'next' and args:
@@ -272,10 +276,12 @@ class StepRule:
             if prev is not None:
                 self.steps.add((prev, evs, cur))
             name = itv[1] if itv[0] == 'sym' else '?'
+            byv = any(n in name for n in self.by_value)
+            wrap = (lambda x: x) if byv else (lambda x: ('ref', ('const', x)))
             if name.startswith('zip('):
-                item = ('tuple', (('ref', ('const', ('sym', 'b1'))), ('ref', ('const', ('sym', 'b2')))))
+                item = ('tuple', (wrap(('sym', 'b1')), wrap(('sym', 'b2'))))
             else:
-                item = ('ref', ('const', ('sym', 'b')))
+                item = wrap(('sym', 'b'))
             return [(w.with_st((cur, (('over', name),))), some(item)), (w.with_st((cur, (('end', name),))), none())]
         if p.endswith('Utf8Accum::push_byte'):
             prev, evs = w.st
@@ -302,8 +308,9 @@ class ClassStepRule(StepRule):
             if prev is not None:
                 self.steps.add((prev, evs, cur))
             out = [(w.with_st((cur, (('end',),))), none())]
+            byv = itv[0] == 'sym' and any(n in itv[1] for n in self.by_value)
             for c in self.classes:
-                item = ('ref', ('const', ('int', c, None)))
+                item = ('int', c, None) if byv else ('ref', ('const', ('int', c, None)))
                 if itv[0] == 'sym' and itv[1].startswith('zip('):
                     item = ('tuple', (item, item))
                 out.append((w.with_st((cur, (('class', c),))), some(item)))
